@@ -40,12 +40,14 @@ func TestC19(t *testing.T) {
 		s  *w.State
 	}
 	var after []st
+	perSc := map[string]int{} // closure starts kept per scenario (a single cap would be used up by the first scenario)
 	k := 0
 	runWorld(t, run, []scOpt{s2, s3, s3m}, []func(*w.MonCtx){w.MonC19}, 0, func(sc *w.Scenario, s *w.State, d int) {
 		if s.Mem["lastcmd"] != "" {
 			k++
 			if h.Thorough() || k%4 == 0 {
-				if len(after) < 100000 {
+				if perSc[sc.Name] < 35000 {
+					perSc[sc.Name]++
 					after = append(after, st{sc, s})
 				} else {
 					run.Count("after_states_not_kept", 1)
@@ -128,7 +130,7 @@ func TestC19(t *testing.T) {
 	requireAntecedents(run, "C19/pause-interpreted", "C19/unpause-interpreted", "C19/validate-interpreted", "C19/fail-interpreted")
 	run.Cov["evaluations"] = run.Counter("transitions") + run.Counter("closures")
 	if n := run.Counter("after_states_not_kept"); n > 0 {
-		run.NotExhaustive(fmt.Sprintf("%d states beyond the first 100000 were not used as closure starts", n))
+		run.NotExhaustive(fmt.Sprintf("%d states beyond the first 35000 of a scenario were not used as closure starts", n))
 	}
 	exit(run.Finish(fmt.Sprintf("BFS of a rolling update and of auto/manual canaries in which every sequence of up to %d kubectl-eds commands (all eight, real command bodies through the export shims) is interleaved with every order of reconciles, kubelet steps, restarts and a later template change; monitor C19 on every command (precondition, refusal leaves no trace, object diff limited to the documented annotation/condition); closures from the states after successful commands check the controller's interpretation; non-trivial = scenarios", b)))
 }
